@@ -12,6 +12,8 @@
 import QlibcModel.ListTbl.History
 import QlibcModel.ListTbl.UrlRt
 import QlibcModel.ListTbl.Args
+import QlibcModel.ListTbl.Alias
+import QlibcModel.ListTbl.Fold
 import QlibcModel.HashTbl.DecLemmas
 import QlibcModel.Shapes.Listtbl
 import QlibcModel.Shapes.Encode
@@ -166,6 +168,52 @@ theorem getmulti_null_name {t : Tbl} (I : Inv h t) :
   unfold getmultiA
   rw [hw, ← hc, List.map_map]
   rfl
+
+/-- CASE-INSENSITIVE MEANS ASCII LETTERS ONLY (`strcasecmp` in the C locale): two bytes fold alike iff
+    they are equal or the two cases of one ASCII letter; key equality `eqk` (used by every theorem
+    above through `keyIs`) is equality of the folded names, and name hashes play no role for it -/
+theorem fold_is_ascii_letters_only (a b : UInt8) :
+    toLower a = toLower b ↔ a = b ∨ (isUpperC a = true ∧ b = a + 32) ∨ (isUpperC b = true ∧ a = b + 32) :=
+  fold_letters a b
+
+/-- bytes that differ by 0x20 but are not letters are different keys also on a case-insensitive
+    table: '[' '{', '\\' '|', ']' '}', '^' '~', '@' '`', '_' DEL, '0' DLE, Latin-1 À à; 'M' 'm' are equal -/
+example : let ci : Opts := ⟨false, true, false, false⟩
+    eqk ci [91] [123] = false ∧ eqk ci [92] [124] = false ∧ eqk ci [93] [125] = false ∧ eqk ci [94] [126] = false ∧
+    eqk ci [64] [96] = false ∧ eqk ci [95] [127] = false ∧ eqk ci [48] [16] = false ∧ eqk ci [192] [224] = false ∧
+    eqk ci [77] [109] = true ∧ eqk ⟨false, false, false, false⟩ [77] [109] = false := by decide
+
+/-- a put / putstr whose data argument points into the stored value of the first match of the key
+    stores the addressed bytes of the OLD value, under every option vector (`newobj` copies before
+    `putobj` removes the equal keys of a UNIQUE table): the call is `put` with those bytes -/
+theorem put_alias_stores_old_bytes {t : Tbl} (I : Inv h t) (k : Bytes) (str : Bool) (off len : Nat)
+    {v : Bytes} (hv : aliasValue t k (h k) str off len = some v) :
+    (∃ old, ((dir t.opts (entries t)).find? (keyIs t.opts k)).map (·.2) = some old ∧ off ≤ old.length ∧
+      v = if str then (old.drop off).takeWhile (· != 0) ++ [0] else (old.drop off).take len) ∧
+    putAlias t k (h k) str off len = some (put t k (h k) v) := by
+  refine ⟨?_, by simp [putAlias, hv]⟩
+  unfold aliasValue at hv
+  rw [get_eq h I k] at hv
+  cases hl : ((dir t.opts (entries t)).find? (keyIs t.opts k)).map (·.2) with
+  | none => rw [hl] at hv; cases hv
+  | some old =>
+    rw [hl] at hv
+    simp only [] at hv
+    by_cases ho : off > old.length
+    · rw [if_pos ho] at hv; cases hv
+    · rw [if_neg ho] at hv
+      refine ⟨old, rfl, by omega, ?_⟩
+      cases str with
+      | true =>
+        simp only [if_true, HashTbl.subStr] at hv ⊢
+        split at hv
+        · exact (Option.some.inj hv).symm
+        · cases hv
+      | false =>
+        simp only [Bool.false_eq_true, if_false, HashTbl.subRange] at hv ⊢
+        split at hv
+        · exact (Option.some.inj hv).symm
+        · cases hv
 
 /-- non-vacuity: the invariant holds initially for every option vector -/
 example (o : Opts) : Inv h (init o) := inv_init h o
